@@ -23,7 +23,8 @@ rl.on('line', (line) => {
       if (c.fam === 'big') continue
       if (c.valid) {
         if (!sloppy.ok || typeof sloppy.f() !== 'number') bad = 'spec says numeric literal, node disagrees'
-      } else if (sloppy.ok && !/[-]/.test(c.text.replace(/e-/g, 'e')) && !/\.\.|\.[a-z]|[0-9a-f][.][a-z]/.test(c.text)) {
+      } else if (sloppy.ok && !/[-+]/.test(/^0[xXoObB]/.test(c.text) ? c.text : c.text.replace(/[eE][-+]/g, 'e')) && !/\.\.|\.[a-z]|[0-9a-f][.][a-z]/.test(c.text)) {
+        // (a sign makes the text an expression - `0xe-1` is 14 - 1 - unless it follows the exponent mark of a decimal literal)
         bad = 'spec says not a literal, node parses it'
       }
     } else if (c.valid) {
